@@ -84,6 +84,8 @@ pub use kx::KX;
 
 mod ipseckey;
 pub use ipseckey::IPSECKEY;
+#[cfg(simple_dns_verif)]
+pub use ipseckey::Gateway;
 
 mod dnskey;
 pub use dnskey::DNSKEY;
@@ -96,6 +98,8 @@ pub use ds::DS;
 
 mod nsec;
 pub use nsec::NSEC;
+#[cfg(simple_dns_verif)]
+pub use nsec::TypeBitMap;
 
 mod dhcid;
 pub use dhcid::DHCID;
